@@ -37,7 +37,7 @@ Proof. exact spare_write_set_len. Qed.
 From AV.Model Require Import Base Vec Ops Interp.
 From AV.Spec Require Import WorldSpec.
 From AV.Proofs Require Import WorldCore WorldMore WorldProofs.
-(** WHOLE HISTORIES: values written into the spare capacity (spare_bytes_mut of the erased vector, spare_capacity_mut of the typed view) followed by set_len are a step of the history fragment of AV.Props.C01: in the list specification the k fresh values become the new tail ([sp_spare_write]), the machine agrees from every represented world in which they fit below the capacity (the caller's obligation, [admissible]), and [C01_history_refines] / [C03_history_accounting] therefore cover scripts in which such writes are interleaved with every other operation of the fragment.  The byte and typed views of every vector in every state of every such history are those of the represented list ([C12_bytes_are_the_elements] and [C12_snapshot] apply: [C01_history_snapshots]). *)
+(** WHOLE HISTORIES: values written into the spare capacity (spare_bytes_mut of the erased vector, spare_capacity_mut of the typed view) followed by set_len are a step of the history fragment of AV.Props.C01: in the list specification the k fresh values become the new tail ([sp_spare_write]), the machine agrees from every represented world in which they fit below the capacity (the caller's obligation, [admissible]), and [C01_history_refines] / [C03_history_accounting] therefore cover scripts in which such writes are interleaved with every other operation of the fragment.  The byte and typed views of every vector in every state of every such history are those of the represented list ([C12_bytes_are_the_elements] and [C12_snapshot] apply: [C01_history_snapshots]).  On the fixed-capacity backends the geometry of all four views is a step of the fragment as well ([sp_views]; on the resizable backends the capacity is not part of the list specification and the geometry is the model's definition compared with the implementation). *)
 Theorem C12_spare_write_in_histories :
   forall (c : cfg) (w : world) (st : astate) (a : api) (v : nat) (k : N) (r : sres),
          cfg_wf c ->
@@ -48,8 +48,17 @@ Theorem C12_spare_write_in_histories :
          res_matches c w (exec c (OSpareWrite a v k) w) r.
 Proof. exact exec_spare_write. Qed.
 
+(** the view geometry report as a step of any history, on the backends whose capacity the backend kind fixes (Stack, StackN, Empty): as_bytes covers exactly len x size bytes from offset 0, the spare views exactly the (capacity - len) x size bytes behind them, the typed views the same elements *)
+Theorem C12_views_in_histories :
+  forall (c : cfg) (w : world) (st : astate) (v : nat) (r : sres),
+         WRep c w st ->
+         ufuse (wuw w) = None ->
+         sp_views c st (unext (wuw w)) v = Some r -> res_matches c w (exec c (OViews v) w) r.
+Proof. exact exec_views. Qed.
+
 (* ---- end histories ---- *)
 Print Assumptions C12_bytes_are_the_elements.
 Print Assumptions C12_snapshot.
 Print Assumptions C12_spare_write_set_len.
 Print Assumptions C12_spare_write_in_histories.
+Print Assumptions C12_views_in_histories.
